@@ -309,7 +309,12 @@ class BaseAsyncNetworkServerImpl(AbstractAsyncNetworkServer, Generic[_T_LowLevel
                 with self.__backend.open_cancel_scope() as self.__servers_factory_scope:
                     await self.__backend.coro_yield()
                     listeners.extend(await servers_factory(self))  # type: ignore[arg-type]
-                if self.__servers_factory_scope.cancelled_caught():
+                if self.__servers_factory_scope.cancel_called():
+                    # server_close() has been called in the meantime.
+                    # The cancellation request may not have been delivered (e.g. the factory was in a shielded section)
+                    # and in that case the listeners have been created: they must not outlive the close request.
+                    if listeners:
+                        await self.__close_all_servers(self.__backend, listeners)
                     raise ServerClosedError("Server has been closed")
             finally:
                 self.__servers_factory_scope = None
